@@ -378,6 +378,19 @@ static void replacesetup(int32_t argc, Janet *argv, struct replace_state *s) {
         start = janet_getinteger(argv, 3);
         if (start < 0) janet_panic("expected non-negative start index");
     }
+    if (janet_checktype(subst, JANET_FUNCTION) || janet_checktype(subst, JANET_CFUNCTION)) {
+        /* The substitution function can run arbitrary code that resizes or
+         * frees the memory of a buffer, so search in a snapshot instead. The
+         * snapshots stay reachable through the argument slots. */
+        if (janet_checktype(argv[0], JANET_BUFFER)) {
+            argv[0] = janet_stringv(pat.bytes, pat.len);
+            pat = janet_getbytes(argv, 0);
+        }
+        if (janet_checktype(argv[2], JANET_BUFFER)) {
+            argv[2] = janet_stringv(text.bytes, text.len);
+            text = janet_getbytes(argv, 2);
+        }
+    }
     kmp_init(&s->kmp, text.bytes, text.len, pat.bytes, pat.len);
     s->kmp.i = start;
     s->subst = subst;
